@@ -92,6 +92,15 @@ CHECKS = {
             'with the text of the function in the module file actually loaded.',
             'Interpreter-wide ast singletons excluded from the sharing check; annotation fields ignored.',
             'DESIGN.md 3/C17'),
+    'C18': ('exploration',
+            'differential execution of the compiled anf.transform output against the original with logging operands + shape check of the output AST',
+            'Functions with logging calls/objects in every operand position are transformed by the real anf.transform under the '
+            'default and random edge-pattern configurations; the compiled output is run next to the original (result, ordered '
+            'side-effect log, exception class); the output AST is checked against the active configuration (positions marked '
+            'REPLACE hold names/literals, temporaries unique, output compiles); lazy constructs with effects must be rejected. '
+            'One open known finding (hoisting order) is classified by divergence shape (same events, other order, nothing else wrong).',
+            'Operand side effects only log; exemptions as documented in the transform docstring.',
+            'DESIGN.md 3/C18'),
     'C20': ('exploration',
             'exhaustive enumeration of the option space with an executing-code probe',
             'All 1024 option values are built in every spelling, round-tripped through the source form the '
